@@ -208,21 +208,22 @@ func (l *ledger) feed(o *Obs, after string) error {
 // ---- one case: a pre-state, an operation, its boundaries ----
 
 type caseEnv struct {
-	t       failer
-	kind    string
-	dir     string // scratch root of the case
-	pre     string // copy of the stopped bed's directory
-	userID  string
-	snap    vconn.Snapshot
-	gen     *floorGen
-	setup   []Op
-	op      Op
-	before  *State
-	after   *State
-	led     *ledger
-	trace   []string
-	nWork   int
-	lastBed *bed.Bed
+	t        failer
+	kind     string
+	dir      string // scratch root of the case
+	pre      string // copy of the stopped bed's directory
+	userID   string
+	snap     vconn.Snapshot
+	gen      *floorGen
+	setup    []Op
+	op       Op
+	before   *State
+	after    *State
+	led      *ledger
+	trace    []string
+	nWork    int
+	lastBed  *bed.Bed
+	scripted bool
 }
 
 func (c *caseEnv) describeCase() string {
@@ -250,12 +251,25 @@ func (c *caseEnv) describeCase() string {
 }
 
 func (c *caseEnv) fail(format string, a ...any) {
+	verdict := fmt.Sprintf("C07 violated: "+format, a...)
 	hist := ""
+
 	if c.lastBed != nil {
-		hist = "\nhistory of the last server:\n" + c.lastBed.Hist.String()
+		lines := c.lastBed.Hist.Lines()
+		if len(lines) > 120 {
+			lines = append([]string{fmt.Sprintf("... (%d earlier lines)", len(lines)-120)}, lines[len(lines)-120:]...)
+		}
+
+		hist = "history of the last server:\n  " + strings.Join(lines, "\n  ") + "\n"
 	}
 
-	c.t.Fatalf("C07 violated: "+format+"\n%s%s", append(a, c.describeCase(), hist)...)
+	// the verdict is repeated at the end: the driver shows the tail of the output
+	first := verdict
+	if i := strings.Index(first, "\n"); i >= 0 {
+		first = first[:i]
+	}
+
+	c.t.Fatalf("%s\n%s%s%s", verdict, hist, c.describeCase(), first)
 }
 
 // inconclusiveErr ends a case without a verdict. The marker line is printed and the case is abandoned *without*
@@ -438,6 +452,10 @@ func position(mode Mode, step int) int {
 }
 
 func (c *caseEnv) record(mode Mode, step int, extra ...string) {
+	if c.scripted {
+		return // evidence counts generated cases only
+	}
+
 	name := "-"
 	if step >= 0 && step < len(c.trace) {
 		name = c.trace[step]
@@ -463,6 +481,15 @@ func (c *caseEnv) record(mode Mode, step int, extra ...string) {
 
 	if c.op.Kind == "RENAME" && c.op.Box == "INBOX" {
 		labels = append(labels, "rename:INBOX")
+	}
+
+	if c.op.Kind == "RENAME" {
+		for n := range c.before.Boxes {
+			if strings.HasPrefix(n, c.op.Box+"/") {
+				labels = append(labels, "rename:with-inferiors")
+				break
+			}
+		}
 	}
 
 	if len(c.before.Recovery) > 0 {
@@ -546,8 +573,14 @@ func (c *caseEnv) errorRun(step int) {
 	defer b.Destroy()
 
 	out := execOp(b, u, c.op, ctl, ModeError, step)
-	if out.Err != "" && !out.Fired {
-		c.inconclusive("error run at step %d: %s", step, out.Err)
+	if out.Err != "" || strings.Contains(out.Text, "watchdog timeout") {
+		// the harness could not run the operation to its end (no login, watchdog): a crash of the server is a verdict,
+		// anything else is not
+		if err := b.CheckPanics(); err != nil {
+			c.fail("error injected at step %d (%s): %v", step, c.trace[step], err)
+		}
+
+		c.inconclusive("error run at step %d (%s): %s %s", step, c.trace[step], out.Err, out.Text)
 	}
 
 	when := fmt.Sprintf("error injected at step %d (%s)", step, c.trace[step])
@@ -560,9 +593,6 @@ func (c *caseEnv) errorRun(step int) {
 	before, after := named{"BEFORE", c.before}, named{"AFTER", c.after}
 
 	switch {
-	case out.Err != "":
-		c.fail("%s: %s", when, out.Err)
-
 	case !out.Fired:
 		// the run took fewer steps than the counting run: nothing was injected
 		labels = append(labels, "not-reached")
@@ -885,6 +915,21 @@ func runCase(t *rapid.T, kind string) {
 		bd.run(*o)
 	}
 
+	// RENAME: half of the pre-states are made to hold a mailbox with an inferior
+	hasParent := false
+
+	for _, n := range bd.st.boxNames() {
+		if len(superiors(n)) > 0 && bd.st.Boxes[superiors(n)[len(superiors(n))-1]] != nil {
+			hasParent = true
+		}
+	}
+
+	if kind == "RENAME" && !hasParent && rapid.Bool().Draw(t, "makeInferior") {
+		for _, o := range bd.g.ensure(bd.st, kind) {
+			bd.run(o)
+		}
+	}
+
 	op := bd.g.gen(t, bd.st, kind)
 	if op == nil {
 		for _, o := range bd.g.ensure(bd.st, kind) {
@@ -971,6 +1016,8 @@ func runScripted(t failer, setup []Op, pending *Op, op Op) {
 	c, cleanup := newCase(t, op.Kind)
 	defer cleanup()
 
+	c.scripted = true
+
 	bd := newBuilder(c)
 	defer bd.b.Destroy()
 
@@ -1009,7 +1056,7 @@ func TestC07FaultEnumeration(t *testing.T) {
 		kind := kind
 
 		t.Run(kind, func(t *testing.T) {
-			ev.Checks(2, 5)
+			ev.Checks(2, 3)
 			rapid.Check(t, func(rt *rapid.T) { runCase(rt, kind) })
 		})
 	}
